@@ -146,6 +146,8 @@ def run_shard(shard, tier):
         fields = c05.bind_fields(tags)
         for ci, ri in c05.optsets(tier, len(tags)):
             cexpr, copts = M.OPTION_SETS[ci]
+            if "data_first_search" in copts:
+                continue      # the strategy is this check's own variable
             if base.startswith("func") and any(k in copts for k in ("no_default", "defer_default")):
                 continue      # documented as data-class only
             rexpr = None if ri is None else M.OPTION_SETS[ri][0]
